@@ -47,6 +47,12 @@ func limitsFor(profile string) []lisp.Config {
 		// then also stamps per-node expansion metadata, and tail calls are
 		// not elided
 		return append(limitsFor("fuzz"), lisp.WithDebugger(el.Dormant{}))
+	case "sweep-tight":
+		// the sweep limits with the per-operation allocation limit at 10^3 -- the
+		// only limit a loop inside a builtin can consult -- and the step budget at
+		// 2*10^4 (the numeric edge tuples): a limit that is honoured refuses a
+		// huge count early, so the enumeration stays cheap
+		return append(limitsFor("sweep"), lisp.WithMaxAlloc(1000), lisp.WithMaxSteps(20_000))
 	case "sweep":
 		return []lisp.Config{
 			lisp.WithMaxSteps(200_000),
